@@ -145,6 +145,22 @@ fn main() {
                 }
             }
         }
+        "ref-record" => {
+            // the canonical environment: this fresh process executes one job
+            // alone (keys 0, fresh thread, fresh server, clock t0)
+            unsafe {
+                let lim = libc::rlimit { rlim_cur: 60, rlim_max: 70 };
+                libc::setrlimit(libc::RLIMIT_CPU, &lim);
+            }
+            worker::set_limits();
+            let mut text = String::new();
+            use std::io::Read;
+            std::io::stdin().read_to_string(&mut text).expect("read job");
+            let job: job::Job = serde_json::from_str(&text).expect("parse job");
+            let chan = seams::init_channel();
+            let res = plan::run_plan(&plan::SimPlan::single(job, vec![], &[0u8; 16], true, true));
+            chan.send(&format!("RECORD {}", serde_json::to_string(&res.runs[0].record).unwrap()));
+        }
         "show-pool" => {
             // debugging aid: print pool jobs and their canonical outcome
             let corpus = corpus::load(&repo);
